@@ -449,7 +449,7 @@ COQ_SESSION = """
 Definition chk_s (x : Z * Z * str * list reply * option N) : N :=
   let '(ms, mr, input, reps, unread) := x in
   let c := {| max_size := ms; max_rcpts := mr |} in
-  let '(evs, rest) := session (msg_ok ms) (fun _ _ => true) c input in
+  let '(evs, rest) := session (msg_ok ms) (fun _ _ => true) (fun _ _ => false) c input in
   let m := evs_match evs reps &&
            match unread with Some n => N.eqb n (N.of_nat (length rest)) | None => true end in
   let sp := stream_ok mr (fst (split_lines input)) reps in
@@ -476,10 +476,11 @@ Definition chk_r (x : list str * str * str * Z * str * (bool * str * str)) : N :
 
 
 COQ_DOTS = """
-Definition chk_d (x : Z * Z * str * list reply * option N * list (list (list str) * list (Z * str))) : N :=
-  let '(ms, mr, input, reps, unread, deliv) := x in
+Definition chk_d (x : Z * Z * str * list reply * option N * list (list (list str) * list (Z * str)) * list str) : N :=
+  let '(ms, mr, input, reps, unread, deliv, full) := x in
   let c := {| max_size := ms; max_rcpts := mr |} in
-  let '(evs, rest) := session (msg_ok ms) (fun _ _ => true) c input in
+  (* the over-quota set is an explicit input of the model: the addresses in [full] *)
+  let '(evs, rest) := session (msg_ok ms) (fun _ _ => true) (fun r _ => existsb (str_eqb r) full) c input in
   let m := evs_match evs reps &&
            match unread with Some n => N.eqb n (N.of_nat (length rest)) | None => true end in
   let sp := stream_ok mr (fst (split_lines input)) reps in
@@ -493,27 +494,37 @@ def eval_dots(chk, cases):
     items = []
     for c in cases:
         unread = "(Some %d%%N)" % c["unread"] if c["chunk"] == 1 and c.get("unread") is not None else "None"
-        # final reply of recipient k of transaction t, by position in the clean dialogue
+        # final reply of recipient k of transaction t, by position in the clean dialogue;
+        # per address: the bodies it was told (250) it received, in order, against what its
+        # store gained during this session
         pos = 1
-        deliv = []
+        expected = {}
         for rc, body in c["txs"]:
             n = len(rc)
             first_final = pos + 1 + n + 1
             for k, r in enumerate(rc):
                 code = c["reps"][first_final + k][0] if first_final + k < len(c["reps"]) else None
-                exp = [body] if code == 250 else []
-                obs = (c.get("stored") or {}).get(r)
-                if not isinstance(obs, list):
-                    obs = [[-1, ""]]
-                obs_c = "[" + "; ".join("(%d, %s)" % (o[0] if len(o) == 2 else -2, cb(C.unlatin(o[1]))) for o in obs) + "]"
-                exp_c = "[" + "; ".join("[" + "; ".join(cb(l) for l in b) + "]" for b in exp) + "]"
-                deliv.append("(%s, %s)" % (exp_c, obs_c))
+                expected.setdefault(r, [])
+                if code == 250:
+                    expected[r].append(body)
             pos = first_final + n + 1
-        items.append("(%d, %d, %s, %s, %s, %s)" % (c["ms"], c["mr"], cb(c["input"]),
-                                                    "[" + "; ".join(coq_reply(r) for r in c["reps"]) + "]", unread,
-                                                    "[" + "; ".join(deliv) + "]"))
+        deliv = []
+        for r, exp in expected.items():
+            obs = (c.get("stored") or {}).get(r)
+            before = (c.get("prev") or {}).get(r, 0)
+            if not isinstance(obs, list) or len(obs) < before:
+                obs = [[-1, ""]]
+            else:
+                obs = obs[before:]
+            obs_c = "[" + "; ".join("(%d, %s)" % (o[0] if len(o) == 2 else -2, cb(C.unlatin(o[1]))) for o in obs) + "]"
+            exp_c = "[" + "; ".join("[" + "; ".join(cb(l) for l in b) + "]" for b in exp) + "]"
+            deliv.append("(%s, %s)" % (exp_c, obs_c))
+        items.append("(%d, %d, %s, %s, %s, %s, %s)" % (c["ms"], c["mr"], cb(c["input"]),
+                                                        "[" + "; ".join(coq_reply(r) for r in c["reps"]) + "]", unread,
+                                                        "[" + "; ".join(deliv) + "]",
+                                                        "[" + "; ".join(cb(a) for a in c.get("full", [])) + "]"))
     body = COQ_HDR + COQ_DOTS
-    body += "Definition cases_d : list (Z * Z * str * list reply * option N * list (list (list str) * list (Z * str))) :=\n" + clist(items) + ".\n"
+    body += "Definition cases_d : list (Z * Z * str * list reply * option N * list (list (list str) * list (Z * str)) * list str) :=\n" + clist(items) + ".\n"
     body += "Definition res_d := Eval vm_compute in map chk_d cases_d.\nPrint res_d.\n"
     rc, log = C.coq_eval_cases("C16", body)
     if rc != 0:
@@ -566,8 +577,92 @@ def run_refusal_probes(chk, extra, stats):
                               "a message refused after DATA does not leave the session in step and ready for the next transaction")
 
 
-def run_probe_sessions(chk, cases, stats, label, headline):
-    run_sessions(cases)
+QUOTA_CFG = {"max_size": 4000, "max_recipients": 5, "quota_enabled": True, "quota_limit": 1840}
+QUOTA_FULL = ["qf0@example.com", "qf1@example.com", "qf2@example.com"]
+# o<k> = k-th fresh (within quota) address of the session, f<j> = j-th full mailbox;
+# over-quota recipients first / middle / last / all / none / the same address twice
+QUOTA_PATTERNS = ["o0 f0", "f0 o0", "o0 f0 o1", "f0 o0 o1", "o0 o1 f0", "f0 f1 f2", "o0 o1 o2", "o0 f0 o1 f1 o2",
+                  "o0 o0", "f0 f0", "o0 f0 o0", "f0 o0 f0", "o0 o1 f1 f0 o2", "f1 o0 f1 o0", "o0 f2"]
+
+
+def quota_runner(cases):
+    """all quota sessions in ONE driver process (one data directory), in order: the first
+    session fills the mailboxes of QUOTA_FULL, so that they are over quota for every later
+    message while fresh addresses never are"""
+    ops = [dict({"op": "lmtp_script", "programs": [{"input": C.latin(c["input"]), "chunk": c["chunk"], "observe": c["observe"]} for c in cases]},
+                **QUOTA_CFG)]
+    r = C.run_ops(ops, timeout=900)
+    if r.get("crashed") or not r["obs"] or "rs" not in r["obs"][0]:
+        for c in cases:
+            c["crash"] = r.get("stderr", "") or str(r.get("obs"))
+        return
+    seen = {}
+    for c, o in zip(cases, r["obs"][0]["rs"]):
+        c["out"] = C.unlatin(o.get("out", ""))
+        c["returned"] = o.get("returned")
+        c["unread"] = o.get("unread")
+        c["panic"] = o.get("panic")
+        c["stored"] = o.get("stored")
+        c["prev"] = {a: seen.get(a, 0) for a in c["observe"]}
+        for a in c["observe"]:
+            st = (c["stored"] or {}).get(a)
+            if isinstance(st, list):
+                seen[a] = len(st)
+
+
+def run_quota_probes(chk, extra, stats):
+    """delivery.quota_enabled: transactions with 2..5 recipients of which some are over
+    quota (first, middle, last, all, none, the same address twice), pipelined with a following
+    transaction.  Judged in Coq: exactly one final reply per accepted RCPT in RCPT order - the
+    k-th reply names the k-th recipient - and positive iff that recipient's store gained the
+    message (stream_ok, delivered_ok on the store delta); the model gets the over-quota set
+    as an explicit input"""
+    rng = chk.rng
+    ms, mr = QUOTA_CFG["max_size"], QUOTA_CFG["max_recipients"]
+    # two messages of < 1 KB each (so that their text stays in the row): together they fill
+    # the mailbox up to 20 bytes below the quota limit; every probe message is larger than that
+    fill = [b"From: a@example.com\r\n", b"To: b@example.com\r\n", b"\r\n"] + [b"fill " * 12 + b"\r\n"] * 14
+    pre = [b"LHLO quota.example\r\n"]
+    for _ in range(2):
+        pre += [b"MAIL FROM:<a@example.com>\r\n"] + [("RCPT TO:<%s>\r\n" % a).encode() for a in QUOTA_FULL]
+        pre += [b"DATA\r\n"] + fill + [b".\r\n", b"NOOP\r\n"]
+    pre += [b"QUIT\r\n"]
+    assert 2 * size_of(fill) + 20 == QUOTA_CFG["quota_limit"], size_of(fill)
+    c0 = mk_case(b"".join(pre), ms, mr, 0, {"flavour": "quota-prefill"})
+    c0["txs"] = [(list(QUOTA_FULL), fill), (list(QUOTA_FULL), fill)]
+    c0["observe"] = list(QUOTA_FULL)
+    c0["full"] = []
+    cases = [c0]
+    pats = list(QUOTA_PATTERNS) + [" ".join(rng.choice(["o0", "o1", "o2", "f0", "f1", "f2"]) for _ in range(rng.randint(2, 5))) for _ in range(extra)]
+    for i, pat in enumerate(pats):
+        out = [b"LHLO quota.example\r\n"]
+        txs = []
+        for t, p in enumerate([pat, rng.choice(QUOTA_PATTERNS)]):
+            rc = [QUOTA_FULL[int(x[1:])] if x[0] == "f" else "qo%dt%du%s@example.com" % (i, t, x[1:]) for x in p.split()]
+            body = gen_dot_body(rng) if rng.random() < 0.3 else [b"From: a@example.com\r\n", b"To: b@example.com\r\n", b"\r\n",
+                                                                   ("message %d.%d\r\n" % (i, t)).encode()]
+            out.append(b"MAIL FROM:<a@example.com>\r\n")
+            out += [("RCPT TO:<%s>\r\n" % r).encode() for r in rc]
+            out += [b"DATA\r\n"] + stuff(body) + [b".\r\n", b"NOOP\r\n"]
+            txs.append((rc, body))
+        out.append(b"QUIT\r\n")
+        c = mk_case(b"".join(out), ms, mr, rng.choice([1, 0, 7]), {"flavour": "quota", "pattern": pat})
+        c["txs"] = txs
+        c["observe"] = sorted(set(r for rc, _ in txs for r in rc))
+        c["full"] = list(QUOTA_FULL)
+        c["prefill"] = c0
+        cases.append(c)
+    good = run_probe_sessions(chk, cases, stats, "quota_probe",
+                              "with quota enabled the per-recipient replies are not one per accepted RCPT in RCPT order, each positive iff that recipient's store gained the message",
+                              runner=quota_runner)
+    # the harness needs the prefill to have worked: all three 250
+    if good and good[0] is c0 and [r[0] for r in c0.get("reps", [])] != [250] * 5 + [354] + [250] * 8 + [354] + [250] * 4 + [221]:
+        chk.broken_obligation("quota probes: the prefill session did not fill the mailboxes (replies %s)" % [r[0] for r in c0.get("reps", [])], session_payload(c0))
+    return good
+
+
+def run_probe_sessions(chk, cases, stats, label, headline, runner=None):
+    (runner or run_sessions)(cases)
     good = []
     for c in cases:
         if "crash" in c:
@@ -600,7 +695,8 @@ def run_probe_sessions(chk, cases, stats, label, headline):
             what = (headline + ": replies %s to the stream %r are out of step (not one reply per recipient after the real terminator, "
                     "message lines acted on as commands, or later commands unanswered)" % ([r[0] for r in c["reps"]], c["input"][:300]))
         else:
-            what = ("message data not passed through exactly: the octets stored for the recipients differ from the submitted body "
+            what = ("message data not passed through exactly / a positive reply without the message in that recipient's store (or the reverse): "
+                    "what the stores gained differs from the submitted bodies the replies reported as delivered "
                     "(stream %r, stored %r)" % (c["input"][:300], c.get("stored")))
         session_violation(chk, what, c, payload)
     return good
@@ -638,7 +734,9 @@ def eval_sessions(chk, cases):
 def session_payload(c):
     return {"suite": "session", "max_size": c["ms"], "max_recipients": c["mr"], "chunk": c["chunk"],
             "input": C.latin(c["input"]), "replies": [[a, C.latin(b)] for a, b in c.get("reps", [])],
-            "observe": c.get("observe") or []}
+            "observe": c.get("observe") or [],
+            **({"quota_cfg": QUOTA_CFG, "prefill_input": C.latin(c["prefill"]["input"]), "prefill_observe": c["prefill"]["observe"],
+                "over_quota_set": c.get("full")} if c.get("prefill") is not None else {})}
 
 
 def mk_case(inp, ms, mr, chunk, info=None, corpus=None):
@@ -653,7 +751,21 @@ def session_violation(chk, what, c, payload=None):
     again = mk_case(c["input"], c["ms"], c["mr"], c["chunk"])
     again["observe"] = c.get("observe")
     try:
-        run_sessions([again])
+        if c.get("prefill") is not None:
+            # quota session: same configuration, mailboxes filled again first
+            p0 = c["prefill"]
+            pre = mk_case(p0["input"], p0["ms"], p0["mr"], p0["chunk"])
+            pre["observe"] = p0["observe"]
+            quota_runner([pre, again])
+            c_cmp = dict(c)
+            # stores of the full mailboxes: compare what this session added
+            for x, k in ((again, "stored"), (c_cmp, "stored")):
+                st = x.get(k) or {}
+                pv = x.get("prev") or {}
+                x[k] = {a: (v[pv.get(a, 0):] if isinstance(v, list) else v) for a, v in st.items()}
+            c = c_cmp
+        else:
+            run_sessions([again])
     except Exception as e:  # noqa: BLE001
         again["crash"] = str(e)
     same = ("crash" not in again and again.get("out") == c.get("out") and again.get("returned") == c.get("returned")
@@ -736,6 +848,7 @@ def run(chk):
     # they are also the property-level search consulted after a reader mismatch
     dots = run_dot_probes(chk, 24 if quick else 400, stats)
     refs = run_refusal_probes(chk, 7 if quick else 200, stats)
+    quos = run_quota_probes(chk, 5 if quick else 150, stats)
 
     # ---------------- direct calls: reader, parse, verdict
     rcases = gen_reader_cases(rng, n_reader)
@@ -878,7 +991,7 @@ def run(chk):
 
     # ---------------- evidence
     with_tx = [c for c in good if any(r[0] == 354 for r in c["reps"])]
-    chk.cov["evaluations"] = len(rcases) + 2 * len(pargs) + len(msgs) + len(good) + len(dots) + len(refs)
+    chk.cov["evaluations"] = len(rcases) + 2 * len(pargs) + len(msgs) + len(good) + len(dots) + len(refs) + len(quos)
     chk.cov["traces_validated_against_impl"] = len(good) + len(dots) + len(refs)
     chk.cov["distinct_nontrivial"] = len(set(c["input"] for c in with_tx)) + len(set(s for (b, t, r, mx, s) in rcases if t and b))
     chk.cov["rule"] = ("session: distinct client byte streams (seeded; LHLO/MAIL/RCPT/DATA variants in case and spacing, ESMTP parameters, RSET, repeated MAIL, "
@@ -905,6 +1018,10 @@ def run(chk):
                                          "verbs": "each of QUIT RSET DATA MAIL-FROM: RCPT-TO: LHLO NOOP in upper and lower case as the first line of a header-less message and inside a colon-less header line; random kinds/verbs on top",
                                          "shape": "refused message with 1..max recipients, then NOOP, a second complete transaction, NOOP, QUIT",
                                          "judged_by": "stream_ok and delivered_ok (second message stored for its recipients, nothing stored for the refused one)"}
+    chk.cov["quota_probe_sessions"] = {"total": len(quos), "violations": stats.get("quota_probe_violations", 0),
+                                       "config": QUOTA_CFG, "full_mailboxes": QUOTA_FULL,
+                                       "patterns": sorted(set(c["info"].get("pattern", "prefill") for c in quos)),
+                                       "judged_by": "stream_ok (k-th final reply names the k-th accepted recipient) and delivered_ok on the store delta (positive iff the store gained the message); model run with the over-quota set as input"}
     chk.cov["parse_cases"] = len(pargs)
     chk.cov["verdict_cases"] = len(msgs)
     for c in with_tx[:3]:
@@ -917,7 +1034,13 @@ def replay(path):
     if d.get("suite") == "session":
         c = mk_case(C.unlatin(d["input"]), d["max_size"], d["max_recipients"], d.get("chunk", 1))
         c["observe"] = d.get("observe") or []
-        run_sessions([c])
+        if d.get("prefill_input"):
+            pre = mk_case(C.unlatin(d["prefill_input"]), d["max_size"], d["max_recipients"], 0)
+            pre["observe"] = d.get("prefill_observe") or []
+            quota_runner([pre, c])
+            print("quota config %s, over-quota set %s (mailboxes filled by a first session)" % (d.get("quota_cfg"), d.get("over_quota_set")))
+        else:
+            run_sessions([c])
         print("input:  %r" % c["input"])
         print("output: %r" % c.get("out"))
         if c["observe"]:
